@@ -3,6 +3,8 @@
 package spec_2022
 
 import (
+	"encoding/binary"
+
 	enc "github.com/named-data/ndnd/std/encoding"
 )
 
@@ -116,12 +118,59 @@ func specInterestWire(wire enc.Wire, hdr int, pos uint, apLen uint64) bool {
 //@ func (Spec).MakeData
 //@   nullable config
 //@   modifies enc.GhostHashSt
-//@   assert before ShrinkLength@1 estSigLen <= 252 ==> enc.SpecTLVal(buf, len(buf)-enc.SpecTLLen(uint64(estSigLen))) == uint64(len(sigVal))
-//@   assert before ShrinkLength@1 253 <= estSigLen && estSigLen <= 65535 ==> enc.SpecTLVal(buf, len(buf)-3) == uint64(len(sigVal))
-//@   assert before ShrinkLength@1 65536 <= estSigLen && estSigLen <= 4294967295 ==> enc.SpecTLVal(buf, len(buf)-5) == uint64(len(sigVal))
-//@   assert before ShrinkLength@1 4294967296 <= estSigLen ==> enc.SpecTLVal(buf, len(buf)-9) == uint64(len(sigVal))
-//@   assert before ShrinkLength@1 enc.SpecTLVal(buf, len(buf)-enc.SpecTLLen(uint64(estSigLen))) == uint64(len(sigVal))
+// Cuts (each is proved, then assumed): first the facts about the outer TL header of wire[0] that survive the writes
+// into the tail of buf, so that the preconditions of ShrinkLength do not depend on the rewritten length bytes; then,
+// width by width, marker byte / big-endian value bytes / decoded value of the rewritten SignatureValue length.
+//@   assert before ShrinkLength@1 [slot] encoder.Data_encoder.SignatureValue_wireIdx >= 1 && len(wire) > encoder.Data_encoder.SignatureValue_wireIdx
+//@   assert before ShrinkLength@1 [slot-alias] encoder.Data_encoder.SignatureValue_wireIdx == 1 || sliceArr(buf) != sliceArr(wire[0])
+//@   assert before ShrinkLength@1 [slot-same] encoder.Data_encoder.SignatureValue_wireIdx == 1 ==> sameSlice(buf, wire[0])
+//@   assert before ShrinkLength@1 [hdr-len] len(wire[0]) >= 1+enc.SpecTLLen(uint64(encoder.Data_encoder.length))
+//@   assert before ShrinkLength@1 [hdr-type] wire[0][0] == 6
+//@   assert before ShrinkLength@1 [hdr-size] enc.SpecTLSize(wire[0], 1) == enc.SpecTLLen(uint64(encoder.Data_encoder.length))
+//@   assert before ShrinkLength@1 [hdr-val] enc.SpecTLVal(wire[0], 1) == uint64(encoder.Data_encoder.length)
+//@   assert before ShrinkLength@1 [hdr-room] encoder.Data_encoder.length >= uint(estSigLen) && 0 <= estSigLen-len(sigVal) && estSigLen-len(sigVal) <= estSigLen
+//@   assert before ShrinkLength@1 [slot-est] encoder.Data_encoder.SignatureValue_estLen == uint(estSigLen) && estSigLen > 0
+//@   assert before ShrinkLength@1 [slot-len] len(buf) >= 1+enc.SpecTLLen(uint64(estSigLen))
+//@   assert before ShrinkLength@1 [slot-est] encoder.Data_encoder.SignatureValue_estLen == uint(estSigLen) && estSigLen > 0
+//@   assert before ShrinkLength@1 [slot-len] len(buf) >= 1+enc.SpecTLLen(uint64(estSigLen))
+//@   assert before ShrinkLength@1 [w1] estSigLen <= 252 ==> enc.SpecTLVal(buf, len(buf)-1) == uint64(len(sigVal))
+//@   assert before ShrinkLength@1 [w3-marker] 253 <= estSigLen && estSigLen <= 65535 ==> len(buf) >= 3 && buf[len(buf)-3] == 253
+//@   assert before ShrinkLength@1 [w3-bytes] 253 <= estSigLen && estSigLen <= 65535 ==> uint64(buf[len(buf)-2])*256+uint64(buf[len(buf)-1]) == uint64(len(sigVal))
+//@   assert before ShrinkLength@1 [w3] 253 <= estSigLen && estSigLen <= 65535 ==> enc.SpecTLVal(buf, len(buf)-3) == uint64(len(sigVal))
+//@   assert before ShrinkLength@1 [w5-marker] 65536 <= estSigLen && estSigLen <= 4294967295 ==> len(buf) >= 5 && buf[len(buf)-5] == 254
+//@   assert before ShrinkLength@1 [w5-bytes] 65536 <= estSigLen && estSigLen <= 4294967295 ==> (uint64(buf[len(buf)-4])*256+uint64(buf[len(buf)-3]))*65536+uint64(buf[len(buf)-2])*256+uint64(buf[len(buf)-1]) == uint64(len(sigVal))
+//@   assert before ShrinkLength@1 [w5] 65536 <= estSigLen && estSigLen <= 4294967295 ==> enc.SpecTLVal(buf, len(buf)-5) == uint64(len(sigVal))
+//@   assert before ShrinkLength@1 [w9-marker] 4294967296 <= estSigLen ==> len(buf) >= 9 && buf[len(buf)-9] == 255
+//@   assert before ShrinkLength@1 [w9] 4294967296 <= estSigLen ==> enc.SpecTLVal(buf, len(buf)-9) == uint64(len(sigVal))
+//@   assert before ShrinkLength@1 [exact] enc.SpecTLVal(buf, len(buf)-enc.SpecTLLen(uint64(estSigLen))) == uint64(len(sigVal))
 //@   ensures result1 == nil ==> result0 != nil
+
+// The length-rewriting step of MakeData in isolation (same statements as spec.go, on an abstract buffer): given a
+// buffer that ends with the shortest-form length field of est, rewriting it for n <= est keeps the width, touches only
+// the value bytes of the field and makes it decode to n. Supplementary evidence for the width cuts [w3]/[w5]/[w9] above:
+// it shows that the formulation discharges when it is not buried in MakeData's verification condition.
+//
+//@ func lemmaPatchSigLen
+//@   requires 0 < est && 0 <= n && n <= est && len(buf) >= enc.SpecTLLen(uint64(est))
+//@   requires enc.SpecTLSize(buf, len(buf)-enc.SpecTLLen(uint64(est))) == enc.SpecTLLen(uint64(est))
+//@   modifies buf[*]
+//@   ensures [w1] est <= 252 ==> enc.SpecTLVal(buf, len(buf)-1) == uint64(n)
+//@   ensures [w3] 253 <= est && est <= 65535 ==> enc.SpecTLVal(buf, len(buf)-3) == uint64(n)
+//@   ensures [w5] 65536 <= est && est <= 4294967295 ==> enc.SpecTLVal(buf, len(buf)-5) == uint64(n)
+//@   ensures [w9] 4294967296 <= est ==> enc.SpecTLVal(buf, len(buf)-9) == uint64(n)
+//@   ensures [frame] unchangedExcept(buf, len(buf)-enc.SpecTLLen(uint64(est)), len(buf))
+func lemmaPatchSigLen(buf []byte, est, n int) {
+	switch {
+	case est <= 0xfc:
+		buf[len(buf)-1] = byte(n)
+	case est <= 0xffff:
+		binary.BigEndian.PutUint16(buf[len(buf)-2:], uint16(n))
+	case est <= 0xffffffff:
+		binary.BigEndian.PutUint32(buf[len(buf)-4:], uint32(n))
+	default:
+		binary.BigEndian.PutUint64(buf[len(buf)-8:], uint64(n))
+	}
+}
 
 // ---------------------------------------------------------------------------------------
 // checkInterest (C12): an Interest that carries ApplicationParameters is accepted only if its last name
@@ -150,6 +199,8 @@ func specInterestWire(wire enc.Wire, hdr int, pos uint, apLen uint64) bool {
 //@   ensures result1 == nil ==> result0 != nil
 //@   ensures result1 == nil && appParam != nil ==> specDigestName(result0.FinalName) && len(result0.Wire) >= 1 && sliceArr(result0.FinalName[len(result0.FinalName)-1].Val) == sliceArr(result0.Wire[0])
 //@   ensures result1 == nil && appParam != nil ==> forallIn(0, 32, func(i int) bool { return result0.FinalName[len(result0.FinalName)-1].Val[i] == enc.SpecHashByte(enc.GhostHashSt, i) })
+//@   assert before New@1 [sig-len-final] estSigLen > 0 ==> enc.SpecTLVal(wire[encoder.Interest_encoder.SignatureValue_wireIdx-1], len(wire[encoder.Interest_encoder.SignatureValue_wireIdx-1])-1) == uint64(len(sigVal))
+//@   assert before New@1 [digest-slot] specDigestName(finalName) && sameSlice(finalName[len(finalName)-1].Val, digestBuf) && len(digestBuf) == 32 && sliceArr(digestBuf) == sliceArr(wire[0]) && len(wire) >= 1
 //@   loop 1 invariant specDigestName(finalName) && sameSlice(finalName[len(finalName)-1].Val, digestBuf) && len(digestBuf) == 32 && sliceArr(digestBuf) == sliceArr(wire[0]) && len(wire) >= 1
 //@   loop 1 invariant enc.GhostHashSt == enc.SpecHashWireFrom(enc.SpecHashAbsorb(enc.SpecHashInit(), wire[0][len(wire[0])-appParamLen-1:]), digestCovered, rangeindex+1)
 
